@@ -655,6 +655,22 @@ func (b *Branch) Prune(count int) {
 	b.offset += count
 }
 
+// Restore puts the headers directly below the lowest header held in memory back. It is the reverse
+// of Prune.
+func (b *Branch) Restore(headers []*HeaderData) {
+	if len(headers) >= b.offset {
+		return // more than was pruned
+	}
+
+	height := b.PrunedLowestHeight() - len(headers)
+	for i, data := range headers {
+		b.heightsMap[data.Hash] = height + i
+	}
+	b.headers = append(append(make([]*HeaderData, 0, len(headers)+len(b.headers)), headers...),
+		b.headers...)
+	b.offset -= len(headers)
+}
+
 // PrunedLowestHeight is the lowest height data that is available on this branch. It can be above
 // the branch start height because of pruning. It does not include parent branches.
 func (b *Branch) PrunedLowestHeight() int {
